@@ -118,8 +118,30 @@ def correspondence(ctx):
     F.histories(ctx, rep, ['basic', 'fleet'], ctx.n(20, 300), 'corr')
 
 
+def _gather_orders(ctx, rep, n):
+    """Set iteration order decides the order in which `get_modifications` yields the gathered modifications:
+    feed the real calculation the same multiset in several orders (ties inside aggregate groups, penalised and
+    immune sources mixed)."""
+    from harness import calcdirect as CD
+    rnd = ctx.sub_rnd('gather-order')
+    for _ in range(n):
+        case = CD.gen_case(rnd, rnd.random() < 0.5)
+        ref = CD.run_case(case)
+        rep.case(kind='gather-order', sig=('gather', repr(case)) if len(case['mods']) >= 2 else None)
+        for _k in range(3):
+            c2 = dict(case, mods=list(case['mods']))
+            rnd.shuffle(c2['mods'])
+            got = CD.run_case(c2)
+            same = (ref == got) if isinstance(ref, str) or isinstance(got, str) else C.close(ref, got)
+            if not same:
+                rep.violate('calculated value depends on the order in which modifications are gathered: %r vs %r'
+                            % (ref, got), {'a': case, 'b': c2})
+                break
+
+
 def oracle(ctx):
     _schedules(ctx, ctx.report, ctx.n(6, 120), ctx.n(6, 20), ctx.n(6, 32))
+    _gather_orders(ctx, ctx.report, ctx.n(1500, 30000))
     ctx.report.dist['deliveries_with_imposed_order'] = S.CALLS['get']
     ctx.report.dist['salted_hash_calls'] = S.CALLS['hash']
     if S.CALLS['get'] == 0 or S.CALLS['hash'] == 0:
